@@ -75,12 +75,13 @@ const (
 // loses an observation: whatever is sent later is still collected by the final read of all channels,
 // whose own deadline stays generous.
 var impatient, finalImpatient bool
+var basePatience = longPatience
 
 func patience() time.Duration {
 	if impatient {
 		return 25 * time.Millisecond
 	}
-	return longPatience
+	return basePatience
 }
 
 func finalPatience() time.Duration {
@@ -380,7 +381,15 @@ func runFan(c Case) (Obs, bool) {
 		closeStream(ls)
 	}
 
-	// ---- whatever else was sent: read every channel until all delivery goroutines are gone
+	drainAll(order, chans, record, base, &obs)
+	obs.Chans = order
+	obs.Recv = recvObs(order, got, peerNo)
+	return obs, repeated
+}
+
+// drainAll collects whatever else was sent: every channel is read until all delivery goroutines are
+// gone (base = number of goroutines before the first stream was started).
+func drainAll(order []int, chans map[int]chan *comm.WrappedMessage, record func(int, *comm.WrappedMessage), base int, obs *Obs) {
 	stop := make(chan struct{})
 	var wg sync.WaitGroup
 	for _, n := range order {
@@ -417,10 +426,12 @@ func runFan(c Case) (Obs, bool) {
 	}
 	close(stop)
 	wg.Wait()
+}
 
-	// ---- observation
-	obs.Chans = order
-	obs.Recv = make([][]RMsg, len(order))
+// recvObs is the observation: per channel (in the given order) the sorted multiset of what it
+// received; a struct that changed after it was received is marked.
+func recvObs(order []int, got map[int][]receipt, peerNo map[peer.ID]int) [][]RMsg {
+	out := make([][]RMsg, len(order))
 	for i, n := range order {
 		l := []RMsg{}
 		for _, r := range got[n] {
@@ -450,9 +461,9 @@ func runFan(c Case) (Obs, bool) {
 			}
 			return x.F < y.F
 		})
-		obs.Recv[i] = l
+		out[i] = l
 	}
-	return obs, repeated
+	return out
 }
 
 // ---- generation ----------------------------------------------------------------------------------
